@@ -2,7 +2,10 @@
 
 package font
 
-import "github.com/go-text/typesetting/font/cff"
+import (
+	"github.com/go-text/typesetting/font/cff"
+	"github.com/go-text/typesetting/font/opentype/tables"
+)
 
 // Verification hooks for property C10, second part (composite glyphs, phantom points).
 // Add-only.
@@ -22,3 +25,50 @@ func (f *Face) VerifGlyfAllPoints(gid GID) []VerifContourPoint {
 
 // VerifCFF returns the parsed 'CFF ' table, or nil.
 func (f *Font) VerifCFF() *cff.CFF { return f.cff }
+
+// VerifTuple is one tuple variation header of a glyph with the scalar calculateScalar gives it
+// at the current coordinates of the face.
+type VerifTuple struct {
+	SharedIndex int     // index into the shared tuples, used when Peak is nil
+	Peak        []int16 // embedded peak tuple, nil if the shared tuple is used
+	Start, End  []int16 // intermediate region, nil if absent
+	Scalar      float32
+}
+
+// VerifSharedTuples returns the shared tuples of 'gvar'.
+func (f *Font) VerifSharedTuples() [][]int16 {
+	out := make([][]int16, len(f.gvar.sharedTuples))
+	for i, t := range f.gvar.sharedTuples {
+		out[i] = verifCoords(t)
+	}
+	return out
+}
+
+func verifCoords(t []tables.Coord) []int16 {
+	if t == nil {
+		return nil
+	}
+	out := make([]int16, len(t))
+	for i, c := range t {
+		out[i] = int16(c)
+	}
+	return out
+}
+
+// VerifGvarScalars returns the tuple variation headers of the glyph and their scalars at f.coords.
+func (f *Face) VerifGvarScalars(gid GID) []VerifTuple {
+	if int(gid) >= len(f.gvar.variations) {
+		return nil
+	}
+	var out []VerifTuple
+	for _, t := range f.gvar.variations[gid] {
+		out = append(out, VerifTuple{
+			SharedIndex: int(t.Index()),
+			Peak:        verifCoords(t.PeakTuple.Values),
+			Start:       verifCoords(t.IntermediateTuples[0].Values),
+			End:         verifCoords(t.IntermediateTuples[1].Values),
+			Scalar:      t.calculateScalar(f.coords, f.gvar.sharedTuples, f.gvar.sharedTupleActiveIdx),
+		})
+	}
+	return out
+}
